@@ -69,3 +69,15 @@ package utils
 //@     assert [C04.idseq,C20.idseq] $v == old(b.sequenceNumber.v) && backing($b) == backing(r) && off($b) == off(r) + 10 && len($b) == 8
 //@   callsite (*encoding/base64.Encoding).EncodeToString#1
 //@     assert [C04.idurlsafe,C20.idurlsafe] $enc == base64.RawURLEncoding && $src == r && len(r) == 18
+
+//@ func NewParameterBag(parameters)
+//@   trusted "map-backed parameter bag abstracted as a function of (bag, key, version)"
+//@   fresh
+//@   ensures result != nil
+//@ func (*ParameterBag).All()
+//@   trusted "map-backed parameter bag abstracted as a function of (bag, key, version); every stored value list is non-empty (Set/Add store one value; Replace/With are only called with maps taken from other bags or literals)"
+//@   pure
+//@   ensures forall k string :: maphas(result, k) ==> len(mapval(result, k)) > 0
+//@ func (*ParameterBag).With(parameters)
+//@   trusted "map-backed parameter bag abstracted as a function of (bag, key, version)"
+//@   modifies p.$bagver
